@@ -277,7 +277,7 @@ INT_W = [1, 1, 2, 3, 4, 5, 8]
 DYADIC_W = [0.25, 0.5, 0.75, 1.0, 1.5, 2.0, 3.0, 4.0]
 ANY_W = [0.1, 0.3, 0.7, 1.1, 2.5, 1 / 3]
 VTICKS = [0.125, 0.25, 0.5, 1.0, 2.0, 1, 2, 3, 0.1, 0.3, 0.001, 1.5]
-FAMILIES = ['random'] * 7 + ['static'] * 3 + ['ties'] * 3 + ['idle'] * 2 + ['edge'] * 4 + ['malformed']
+FAMILIES = ['random'] * 7 + ['static'] * 3 + ['ties'] * 3 + ['idle'] * 2 + ['edge'] * 4 + ['busyend'] * 2 + ['malformed']
 
 
 def gen_case(rng, cid, kind=None, family=None):
@@ -333,6 +333,20 @@ def gen_case(rng, cid, kind=None, family=None):
         for _ in range(rng.randint(2, 5)):
             script.append((rng.choice([0, 200 * ts, 500 * ts, 1000.25 * ts]), burst(rng.randint(1, 5))))
         c['sources'].append(script)
+    elif family == 'busyend':
+        # arrivals exactly at the end of a busy period, from a timer created during its last transmission: they are
+        # processed between out.put() of the last packet and the scheduler loop's bookkeeping burst
+        script, d = [], rng.choice([0, ts, 2.5 * ts])
+        for _ in range(rng.randint(1, 3)):
+            b = [(rng.choice(flows), unit * rng.choice([1, 1, 2, 3, 5])) for _ in range(rng.randint(1, 4))]
+            total = sum(sz for _, sz in b) // unit * ts
+            script.append((d, b))
+            script.append((total - 0.5 * ts, []))
+            d = 0.5 * ts
+        script.append((d, burst(rng.randint(1, 4))))
+        c['sources'].append(script)
+        if rng.random() < 0.3:
+            c['sources'].append([(rng.choice([0, ts, 3 * ts]), burst(rng.randint(1, 2)))])
     elif family == 'edge':
         for _ in range(rng.randint(1, 3)):
             script = []
@@ -401,27 +415,22 @@ def expected_stamps(c, run):
                 ws += table[k]
             V += (t - last) / ws
 
-        window = False      # between out.put() of a packet and the loop's bookkeeping burst for it
+        # `backlog`: packets of each class the virtual clock still counts (it advances over the interval that ends now
+        # with the classes that were in the scheduler during it, so a packet that left in this very instant counts until
+        # the service-end burst); `inside`: packets waiting or in transmission (an arrival to `inside == 0` starts a
+        # new busy period: V = 0, all F = 0)
+        inside = 0
         for ev in run.hist:
             if ev[0] == 'arr':
                 _, t, pkt, key, figs, _ = ev
                 cls = f2c[pkt.flow_id]
-                if window and sum(backlog.values()) == 1:
-                    # the only packet still accounted for has already left: the scheduler is observably empty (size() == 0
-                    # for every flow, packet_in_service is None).  By the stated rule this arrival starts from V = F = 0.
-                    window = False
-                    fresh = max(0.0, 0.0) + pkt.size * 8.0 / (rate * table[cls])
-                    got = figs['finish'].get(cls)
-                    if got is None or bits(got) != bits(fresh):
-                        fails.append({'what': f'WFQ: packet {pkt.packet_id} (class {cls}, size {pkt.size}) arrives at {t}, the instant the last transmission of a busy '
-                                              f'period ended (out.put() done, every size() is 0, nothing in service) but before the scheduler loop booked it out: '
-                                              f'it is stamped {got} from the old virtual time / finish times; V and all F reset to 0 would give {fresh}',
-                                      'signature': 'wfq-empty-race'})
-                if sum(backlog.values()) == 0:
+                fresh = inside == 0
+                if fresh:
                     V = 0.0
                     F = {k: 0.0 for k in table}
                 else:
                     advance(t)
+                inside += 1
                 F[cls] = max(F[cls], V) + pkt.size * 8.0 / (rate * table[cls])
                 backlog[cls] += 1
                 last = t
@@ -429,7 +438,9 @@ def expected_stamps(c, run):
                 got = figs['finish'].get(cls)
                 if got is None or bits(got) != bits(F[cls]):
                     fails.append({'what': f'WFQ: packet {pkt.packet_id} (class {cls}, size {pkt.size}) arriving at {t}: finish_times[{cls}] = {got}, '
-                                          f'specified max(F, V) + 8*size/(rate*w) = {F[cls]} (V = {V})', 'signature': 'wfq-stamp'})
+                                          f'specified max(F, V) + 8*size/(rate*w) = {F[cls]} (V = {V}'
+                                          + (', no packet was waiting or in transmission at this arrival: V and all F restart from 0)' if fresh else ')'),
+                                  'signature': 'wfq-stamp'})
                 if bits(figs['vtime']) != bits(V):
                     fails.append({'what': f'WFQ: virtual time after the arrival of packet {pkt.packet_id} at {t} is {figs["vtime"]}, specified {V}',
                                   'signature': 'wfq-vtime'})
@@ -437,10 +448,9 @@ def expected_stamps(c, run):
                     pass        # the key layout is internal; the order oracle decides whether it matters
             elif ev[0] == 'dep':
                 last_dep = ev[2]
-                window = True
+                inside -= 1
             elif ev[0] == 'done':
                 _, t, figs = ev
-                window = False
                 cls = f2c[last_dep.flow_id]
                 advance(t)
                 backlog[cls] -= 1
